@@ -750,3 +750,113 @@ def bare_box_checks(rep, case, desc, d, F, reqs, answers):
                          "feval of the one-box diagram: " + feval1[:1500])
         else:
             rep.count("bare_box:model_box_eq_one_box_diagram")
+
+
+# ------------------------------------------------------------------ stream: related terms, trivial spiders (round 7)
+
+def related_sum_case(rep, rng, subseed):
+    """Formal sums of tensor diagrams whose TERMS ARE RELATED: the same term several times
+    (multiplicity), a box next to its own dagger (`tensor.Box.__eq__` and `__hash__` ignore the dagger
+    flag), two boxes with the same name and type but other entries, a box next to the one-box diagram
+    that wraps it, composites that share boxes.  `Sum.eval()` and the identity-on-arrays functor must
+    give the entrywise sum of the terms' matrices, each term counted as often as it is listed.
+    And spiders on the TRIVIAL dimension / with 0..4 legs on dimensions 1..3: the defining tensor, alone
+    (`eval` of the bare box), in a one-box diagram, next to and after another tensor."""
+    from discopy import tensor
+    from discopy.tensor import Dim, Tensor
+    desc = dict(stream="related-sums", subseed=subseed)
+    chk = Checker(rep, desc)
+    dims = [rng.choice([1, 2, 2, 3]) for _ in range(rng.choice([1, 1, 2]))]
+    n = size(dims)
+    D = Dim(*dims)
+
+    def rand_box(name, herm=False):
+        data = tl.rand_entries(rng, n * n, density=0.8)
+        m = np.array(data, dtype=complex).reshape(n, n)
+        if herm:
+            m = m + m.conj().T
+        arr = m.reshape(tuple(dims + dims) or (1,))
+        return tensor.Box(name, D, D, arr if rng.random() < 0.5 else arr.tolist()), m
+    f, mf = rand_box("f")
+    g, mg = rand_box("f" if rng.random() < 0.5 else "g")          # same name, other entries
+    h, mh = rand_box("h", herm=True)
+    pool = [("f", f, mf), ("f.dagger()", f.dagger(), mf.conj().T), ("g", g, mg),
+            ("g.dagger()", g.dagger(), mg.conj().T), ("h", h, mh), ("h.dagger()", h.dagger(), mh.conj().T),
+            ("f>>g", f >> g, mf @ mg), ("(f>>g).dagger()", (f >> g).dagger(), (mf @ mg).conj().T),
+            ("f>>f.dagger()", f >> f.dagger(), mf @ mf.conj().T), ("Id@f as diagram", tensor.Id(Dim(1)) @ f, mf),
+            ("f.dagger().dagger()", f.dagger().dagger(), mf), ("Id", tensor.Id(D), np.eye(n, dtype=complex))]
+    k = rng.choice([2, 2, 3, 3, 4, 6])
+    shape = rng.choice(["box_and_dagger", "repeated", "random", "random"])
+    if shape == "box_and_dagger":
+        base = rng.choice([0, 2, 4, 6])
+        picks = [pool[base], pool[base + 1]] + [rng.choice(pool) for _ in range(k - 2)]
+        rng.shuffle(picks)
+    elif shape == "repeated":
+        one = rng.choice(pool)
+        picks = [one] * rng.choice([2, 3]) + [rng.choice(pool) for _ in range(max(0, k - 3))]
+        rng.shuffle(picks)
+    else:
+        picks = [rng.choice(pool) for _ in range(k)]
+    rep.count("related-sums:shape:" + shape)
+    rep.count("related-sums:terms:%d" % len(picks))
+    if any(a[0] + ".dagger()" == b[0] for a in picks for b in picks):
+        rep.count("related-sums:term_next_to_its_dagger")
+    if len({p[0] for p in picks}) < len(picks):
+        rep.count("related-sums:repeated_term")
+    names = [p[0] for p in picks]
+    want = sum([p[2] for p in picks], np.zeros((n, n), dtype=complex))
+    route = rng.choice(["Sum(terms)", "plus", "sum()"])
+    more = dict(terms=names, route=route, dims=dims, f=repr(mf.tolist()), g=repr(mg.tolist()))
+
+    def build():
+        terms = [p[1] for p in picks]
+        if route == "Sum(terms)":
+            return tensor.Sum(terms, D, D)
+        s = terms[0]
+        for t in terms[1:]:
+            s = s + t
+        return s
+    ok, s = chk.call("related_sum:build", build, **more)
+    if ok:
+        ok, val = chk.call("related_sum:Sum.eval", lambda: s.eval(), **more)
+        if ok:
+            chk.typed("related_sum:Sum.eval", val, dims, dims, want, **more)
+        F = tensor.Functor(lambda x: x, lambda b: b.array)
+        ok, val = chk.call("related_sum:functor", lambda: F(s), **more)
+        if ok:
+            chk.typed("related_sum:functor", val, dims, dims, want, **more)
+        ok, val = chk.call("related_sum:then_eval", lambda: (s >> f).eval(), **more)
+        if ok:
+            chk.typed("related_sum:sum_then_box", val, dims, dims, want @ mf, **more)
+    # ---- spiders
+    d = rng.choice([1, 1, 1, 2, 3])
+    a, b = rng.randint(0, 3), rng.randint(0, 3)
+    more = dict(spider=(a, b, d))
+    rep.count("related-sums:spider_dim:%d" % d)
+    rep.count("related-sums:spider_legs:%d" % min(a + b, 4))
+    ref = np.zeros((d ** a, d ** b), dtype=complex)
+    for i in range(d):
+        ref[sum(i * d ** j for j in range(a)), sum(i * d ** j for j in range(b))] = 1
+    ok, sp = chk.call("spider:build", lambda: tensor.Spider(a, b, Dim(d)), **more)
+    if ok:
+        ok, val = chk.call("spider:eval", lambda: sp.eval(), **more)
+        if ok:
+            chk.typed("spider:eval", val, [d] * a, [d] * b, ref, **more)
+        ok, val = chk.call("spider:diagram_eval", lambda: (tensor.Id(Dim(1)) @ sp).eval(), **more)
+        if ok:
+            chk.typed("spider:in_diagram", val, [d] * a, [d] * b, ref, **more)
+        ok, val = chk.call("spider:next_to_box", lambda: (f @ sp).eval(), **more)
+        if ok:
+            chk.typed("spider:next_to_box", val, dims + [d] * a, dims + [d] * b, np.kron(mf, ref), **more)
+        ok, val = chk.call("spider:spiders()", lambda: tensor.Diagram.spiders(a, b, Dim(d)).eval(), **more)
+        if ok:
+            chk.typed("spider:Diagram.spiders", val, [d] * a, [d] * b, ref, **more)
+        if a >= 1:
+            ok, val = chk.call("spider:fusion", lambda: (tensor.Spider(b, a, Dim(d)) >> sp).eval(), **more)
+            if ok:
+                fus = np.zeros((d ** b, d ** b), dtype=complex)
+                for i in range(d):
+                    j = sum(i * d ** q for q in range(b))
+                    fus[j, j] += 1      # b = 0: the closed spider is the dimension
+                chk.typed("spider:fusion", val, [d] * b, [d] * b, fus, **more)
+    return "sum %s %s %d; spider %d %d %d" % (shape, route, len(picks), a, b, d)
